@@ -5,6 +5,7 @@ CONSTANTS
   MaxReq = 1
   FAsIs = {}
   Mutants = {}
+  Listed = {%LISTED%}
 CONSTRAINT HighWater
 INVARIANT Report
 POSTCONDITION TraceAccepted
